@@ -135,3 +135,46 @@ Section PlacePhi.
   Definition place_phi_nodes_fixed (fuel : nat) (defining : list Z) : result (list (Z * Z)) :=
     place_phi_loop_fixed fuel (sort_by (enum defining), [], 0, []).
 End PlacePhi.
+
+(* ------------------------------------------------------------------------------------------
+   ppci/codegen/burg.py  BurgSystem.check_tree_defined (called by check() for every rule when an
+   instruction selector is built)
+
+       for name in tree.get_defined_names():          # a builtin set of str (hash depends on PYTHONHASHSEED)
+           if name not in self.symbols:
+               raise BurgError(f"{name} not defined")
+
+   names: the enumeration of the set; the error carries the offending name (Diag name). *)
+Fixpoint check_tree_defined (names symbols : list Z) : result unit :=
+  match names with
+  | [] => Ok tt
+  | n :: r => if mem n symbols then check_tree_defined r symbols else Diag n
+  end.
+
+(* ------------------------------------------------------------------------------------------
+   ppci/graph/relooper.py  StructureDetector.follows_loop  (wasm / python back ends)
+
+       reachable_outside_loop = set()
+       all_loop_nodes = [loop.header] + loop.rest        # loop.rest: list built by enumerating the set _reach[header]
+       for node in all_loop_nodes:
+           for s in node.successors:                      # builtin set of id-hashed nodes
+               if s not in all_loop_nodes:
+                   if not self.cfg.strictly_dominates(loop.header, s):
+                       reachable_outside_loop.add(s)
+       if reachable_outside_loop:
+           if len(reachable_outside_loop) != 1: raise ValueError(...)
+           return list(reachable_outside_loop)[0]
+       (falls off the end: None)
+
+   loop_nodes: all_loop_nodes in the order met; succ n: the enumeration of n.successors;
+   sdom s = strictly_dominates(loop.header, s). *)
+Definition follows_inner (loop_nodes : list Z) (sdom : Z -> bool) (acc : list Z) (s : Z) : list Z :=
+  if mem s loop_nodes then acc else if sdom s then acc else set_add s acc.
+Definition reachable_outside (succ : Z -> list Z) (loop_nodes : list Z) (sdom : Z -> bool) : list Z :=
+  fold_left (fun acc node => fold_left (follows_inner loop_nodes sdom) (succ node) acc) loop_nodes [].
+Definition follows_loop (succ : Z -> list Z) (loop_nodes : list Z) (sdom : Z -> bool) : result (option Z) :=
+  match reachable_outside succ loop_nodes sdom with
+  | [] => Ok None
+  | [x] => Ok (Some x)
+  | _ => Diag 0
+  end.
